@@ -1,5 +1,5 @@
 SPECIFICATION Spec
-CONSTANTS Configs <- CfgSmall AddProgs <- P21 NClosers = 1 AllowCancel = FALSE ConsKinds <- Both MaxNow = 8
+CONSTANTS Configs <- CfgTiny AddProgs <- P11 NClosers = 1 AllowCancel = FALSE ConsKinds <- Slow MaxNow = 3
   AdvIdleOnly = TRUE UseMonitor = FALSE CloseFix = TRUE Variant = "ok"
 INVARIANTS NoWedge TypeOK
 PROPERTIES CloseReturns AddsReturn AddCovered
